@@ -160,6 +160,36 @@ func (rs *regScript) issue(p *Peer, hot *LFeat) *regIssued {
 	return ri
 }
 
+// entityRemovedBefore: the peer's connection delivered, before seq, a notification that marks
+// the entity of the client address as removed.
+//
+//go:norace
+func entityRemovedBefore(p *Peer, client string, seq uint64) bool {
+	for _, d := range p.Conn.Del {
+		if !d.Done || d.End > seq || d.D == nil || len(d.D.Payload.Cmd) == 0 {
+			continue
+		}
+		dd := d.D.Payload.Cmd[0].NodeManagementDetailedDiscoveryData
+		if dd == nil {
+			continue
+		}
+		for _, ei := range dd.EntityInformation {
+			if ei.Description == nil || ei.Description.EntityAddress == nil || ei.Description.LastStateChange == nil ||
+				*ei.Description.LastStateChange != model.NetworkManagementStateChangeTypeRemoved {
+				continue
+			}
+			var a []uint
+			for _, x := range ei.Description.EntityAddress.Entity {
+				a = append(a, uint(x))
+			}
+			if strings.HasPrefix(client, p.Addr+"/"+fmtUints(a)+"/") {
+				return true
+			}
+		}
+	}
+	return false
+}
+
 // collect turns issued requests into a history of completed operations.
 //
 //go:norace
@@ -173,6 +203,13 @@ func (rs *regScript) collect(prop string) []RegOp {
 			}
 			op := ri.op
 			op.Call, op.Return = d.Begin, d.End
+			// validity is a matter of what the node knows when it handles the request: a (duplicated,
+			// delayed) request that arrives after its peer announced the client's entity as removed
+			// names a client that no longer exists
+			if op.Valid && entityRemovedBefore(ri.peer, op.Client, d.Begin) {
+				op.Valid = false
+				op.Desc += "+client-entity-removed-meanwhile"
+			}
 			res := ri.peer.RespDuring(d)
 			nres := 0
 			for _, s := range res {
